@@ -147,7 +147,11 @@ func runAll(files []string, timeoutS, par int, all bool) []SolveResult {
 		go func(i int, f string) {
 			defer wg.Done()
 			defer func() { <-sem }()
-			res[i] = solve(f, timeoutS, all)
+			t := timeoutS
+			if strings.Contains(filepath.Base(f), "_cover.") && t > 3 {
+				t = 3 // vacuity checks only need to notice a quick "unsat"
+			}
+			res[i] = solve(f, t, all)
 		}(i, f)
 	}
 	wg.Wait()
